@@ -46,7 +46,8 @@ _Static_assert(sizeof(varintPFORMeta) <= 64,
                "Keep this struct cache-friendly for hot encoding paths.");
 
 /* Compute optimal threshold and metadata for encoding.
- * Returns width needed for regular values (non-exceptions).
+ * Returns width needed for regular values (non-exceptions), or
+ * VARINT_WIDTH_INVALID (with *meta zeroed) if memory allocation fails.
  * exceptionCount will be set to number of values exceeding threshold. */
 varintWidth varintPFORComputeThreshold(const uint64_t *values, uint32_t count,
                                        uint32_t threshold,
@@ -54,7 +55,7 @@ varintWidth varintPFORComputeThreshold(const uint64_t *values, uint32_t count,
 
 /* Encode array of values using PFOR.
  * dst must have enough space (use varintPFORSize() to calculate).
- * Returns number of bytes written. */
+ * Returns number of bytes written, or 0 if memory allocation fails. */
 size_t varintPFOREncode(uint8_t *dst, const uint64_t *values, uint32_t count,
                         uint32_t threshold, varintPFORMeta *meta);
 
